@@ -195,6 +195,9 @@ func (w *World) connectApp(port int) *Session {
 	in := w.app
 	s := &Session{W: w, Port: port, Cli: NewClient()}
 	s.Cli.closeEnds = true
+	if w.Who != nil {
+		s.Cli.tid = w.Who()
+	}
 	appMu.Lock()
 	n1, n2 := len(in.dialed[1]), len(in.dialed[2])
 	appMu.Unlock()
